@@ -1286,3 +1286,59 @@ func runAtomicWrite(prog *Prog, sc StaticCheck) *StaticResult {
 	res.Trusted = append(res.Trusted, "os.Rename within a directory replaces the destination atomically (POSIX rename); durability against power loss (fsync) is not claimed")
 	return res
 }
+
+// publishes-fresh (copy-on-write): in <func>, every value stored into field <field> and every argument handed to a
+// call through a function-typed parameter is an object allocated by this very execution of <func> (never the
+// shared object that other goroutines may be reading).
+func runPublishesFresh(prog *Prog, sc StaticCheck) *StaticResult {
+	res := &StaticResult{Name: sc.Name, Kind: sc.Kind}
+	fn := prog.FindFunc(modPath+"/"+sc.Pkg, sc.Args["func"])
+	if fn == nil {
+		res.Obligations = 1
+		res.Failures = append(res.Failures, "binding: function "+sc.Args["func"]+" not found")
+		return res
+	}
+	field := parseLoc(sc.Args["field"])
+	isFresh := func(v ssa.Value) bool {
+		a, ok := v.(*ssa.Alloc)
+		return ok && a.Parent() == fn
+	}
+	n := 0
+	for _, b := range fn.Blocks {
+		for _, in := range b.Instrs {
+			switch x := in.(type) {
+			case *ssa.Store:
+				if _, ok := matchLoc(x.Addr, field); ok {
+					n++
+					res.Obligations++
+					if isFresh(x.Val) {
+						res.Discharged++
+						res.Samples = append(res.Samples, map[string]interface{}{"obligation": fmt.Sprintf("%s#stores a fresh object into %s (%s)", sc.Args["func"], sc.Args["field"], posOf(prog, x.Pos())), "backend": "def-use"})
+					} else {
+						res.Failures = append(res.Failures, fmt.Sprintf("%s stores a value that is not freshly allocated into %s at %s", sc.Args["func"], sc.Args["field"], posOf(prog, x.Pos())))
+					}
+				}
+			case *ssa.Call:
+				if _, isParam := x.Call.Value.(*ssa.Parameter); isParam {
+					for _, a := range x.Call.Args {
+						if _, isPtr := a.Type().Underlying().(*types.Pointer); !isPtr {
+							continue
+						}
+						n++
+						res.Obligations++
+						if isFresh(a) {
+							res.Discharged++
+						} else {
+							res.Failures = append(res.Failures, fmt.Sprintf("%s passes an object that is not freshly allocated to its callback at %s", sc.Args["func"], posOf(prog, x.Pos())))
+						}
+					}
+				}
+			}
+		}
+	}
+	if n == 0 {
+		res.Obligations++
+		res.Failures = append(res.Failures, "no store to "+sc.Args["field"]+" and no callback call found (vacuous)")
+	}
+	return res
+}
